@@ -144,8 +144,7 @@ def run_case(case):
                     got.append((k, bytes(item)))
                     n_here += 1
             if crsp.number_of_objects != n_here:
-                discs.append(Disc('object-count', 'page %d announces %d objects and carries %d' % (pages, crsp.number_of_objects, n_here)))
-                break
+                labels.append('object-count-field-differs')      # the count field is C01's business (spec layout), not C20's
             if crsp.more_follows == 0xFF:
                 oid = crsp.next_object_id
                 continue
